@@ -648,12 +648,93 @@ func runC07Anchor(c *Ctx) {
 
 // ---- C07.QUOTEARG ----
 
+// sameFieldPath: a and b are the same value, or loads of the same field of the same value (step.Name read twice).
+func sameFieldPath(a, b ssa.Value, depth int) bool {
+	if a == b {
+		return true
+	}
+	if depth > 4 {
+		return false
+	}
+	fa, ba := fieldLoad(a)
+	fb, bb := fieldLoad(b)
+	return fa != "" && fa == fb && sameFieldPath(ba, bb, depth+1)
+}
+
 func runC07QuoteArg(c *Ctx) {
 	p := c.P
 	fn := p.Method("RuleExpression", "checkExprsIn")
 	if fn == nil {
 		c.anchorMissing("(*RuleExpression).checkExprsIn")
 		return
+	}
+	paramIdx := func(f *ssa.Function, v ssa.Value) int {
+		for i, pr := range f.Params {
+			if ssa.Value(pr) == v {
+				return i
+			}
+		}
+		return -1
+	}
+	// quotedOfScanned: q is the Quoted flag the parser recorded for the very String whose Value is s - directly, or s and
+	// q are parameters of the function in and every caller passes such a pair. The verdict is "ok", "violation" or
+	// "undecided" with the reason.
+	var quotedOfScanned func(in *ssa.Function, s, q ssa.Value, depth int) (string, string)
+	quotedOfScanned = func(in *ssa.Function, s, q ssa.Value, depth int) (string, string) {
+		sf, sbase := fieldLoad(s)
+		if sf == "" {
+			sf = symName(s)
+		}
+		if _, isConst := q.(*ssa.Const); isConst {
+			return "violation", "the scan of " + sf + " is told a constant instead of whether the scalar is quoted: for a quoted scalar every column inside it is one too small (" + sf + " has no record of the quoting style)"
+		}
+		if not, ok := q.(*ssa.UnOp); ok && not.Op == token.NOT {
+			return "violation", "the scan of " + sf + " is told the opposite of " + symName(not.X) + ": the column is moved past a quote exactly when there is none"
+		}
+		if qf, qbase := fieldLoad(q); qf != "" {
+			switch {
+			case qf == "String.Quoted" && sf == "String.Value" && sameFieldPath(qbase, sbase, 0):
+				return "ok", "the Quoted flag of the String whose Value is scanned"
+			case qf == "String.Quoted" && sf != "String.Value":
+				return "undecided", "the flag is a String's, the text (" + sf + ") is not the Value of a String: not seen to belong together"
+			case qf == "String.Quoted":
+				return "violation", "the scan of " + sf + " is told the Quoted flag of another String (" + symName(qbase) + "): whether the column is moved past a quote depends on a different scalar"
+			}
+			return "violation", "the scan of " + sf + " is told " + qf + ", which is not the quoting style the parser recorded for it"
+		}
+		if qi := paramIdx(in, q); qi >= 0 && depth < 3 {
+			// the text: a parameter as well, or the Value of a String parameter
+			si, viaString := paramIdx(in, s), false
+			if si < 0 && sf == "String.Value" {
+				si, viaString = paramIdx(in, sbase), true
+			}
+			callers := p.callersOf(in)
+			if si < 0 || len(callers) == 0 {
+				return "undecided", "the flag is the parameter " + symName(q) + " of " + FuncName(in) + ", the text is not: callers cannot be matched"
+			}
+			for _, e := range callers {
+				if e.Site == nil || len(e.Site.Common().Args) <= qi || len(e.Site.Common().Args) <= si || e.Site.Common().IsInvoke() {
+					return "undecided", "a caller of " + FuncName(in) + " cannot be followed"
+				}
+				cs, cq := e.Site.Common().Args[si], e.Site.Common().Args[qi]
+				if viaString {
+					// the caller hands over the String itself: the flag must be that String's
+					qf, qbase := fieldLoad(cq)
+					if qf == "String.Quoted" && sameFieldPath(qbase, cs, 0) {
+						continue
+					}
+					if _, isConst := cq.(*ssa.Const); isConst {
+						return "violation", "the scan of " + sf + " is told a constant by " + FuncName(e.Caller.Func) + " instead of whether the scalar is quoted"
+					}
+					return "violation", "the scan of " + sf + " is told " + symName(cq) + " by " + FuncName(e.Caller.Func) + ", not the Quoted flag of the String that is scanned"
+				}
+				if v, why := quotedOfScanned(e.Caller.Func, cs, cq, depth+1); v != "ok" {
+					return v, why + " (passed on by " + FuncName(e.Caller.Func) + ")"
+				}
+			}
+			return "ok", "every caller of " + FuncName(in) + " passes the Quoted flag of the String whose Value is scanned"
+		}
+		return "undecided", "the scan of " + sf + " is told a value computed by the caller (" + symName(q) + "): not seen to be the Quoted flag of the scanned String"
 	}
 	occ := map[string]int{}
 	for _, e := range p.callersOf(fn) {
@@ -670,19 +751,13 @@ func runC07QuoteArg(c *Ctx) {
 		if occ[k] > 1 {
 			construct = fmt.Sprintf("%s#%d", k, occ[k])
 		}
-		sf, sbase := fieldLoad(args[1])
-		qf, qbase := fieldLoad(args[3])
-		switch {
-		case qf == "String.Quoted" && sf == "String.Value" && qbase == sbase:
-			c.ok(construct, e.Site.Pos(), "the Quoted flag of the String whose Value is scanned")
-		case qf == "String.Quoted":
-			c.ok(construct, e.Site.Pos(), "a Quoted flag recorded by the parser")
+		switch v, why := quotedOfScanned(e.Caller.Func, args[1], args[3], 0); v {
+		case "ok":
+			c.ok(construct, e.Site.Pos(), why)
+		case "violation":
+			c.bad(construct, e.Site.Pos(), why)
 		default:
-			if _, isConst := args[3].(*ssa.Const); isConst {
-				c.bad(construct, e.Site.Pos(), "the scan of "+sf+" is told a constant instead of whether the scalar is quoted: for a quoted scalar every column inside it is one too small ("+sf+" has no record of the quoting style)")
-			} else {
-				c.ok(construct, e.Site.Pos(), "a value computed by the caller: "+symName(args[3]))
-			}
+			c.undecided(construct, e.Site.Pos(), why)
 		}
 	}
 }
